@@ -33,9 +33,11 @@ META = {
     "level_text": "For each base request stream (well-formed ones, and streams with a valid header block whose body "
                   "framing the server itself then refuses with 400/close: invalid chunk-size line or chunk terminator, "
                   "chunked / Content-Length / decompressed gzip body over max_body_size, unusable Content-Length or "
-                  "Transfer-Encoding, corrupt gzip) every byte offset is used as a fault point (orderly close, reset, "
+                  "Transfer-Encoding, corrupt gzip, correctly framed but truncated gzip - refused from inside the decoding "
+                  "wrapper's finish()) every byte offset is used as a fault point (orderly close, reset, "
                   "half-close, server shutdown, body-timeout expiry in virtual time), plus five response-phase points, "
-                  "against raw delegates (sync/async) and the real Application (sync, async, @stream_request_body). "
+                  "against raw delegates (sync/async, answering early, and one whose finish() raises before/after responding) "
+                  "and the real Application (sync, async, @stream_request_body). "
                   "A recording proxy at the HTTPMessageDelegate boundary gives the per-request event history; the "
                   "oracle is exactly-once(finish|close) + body-prefix + completion of close_all_connections (Quiescent "
                   "or a connection closed again and again = deadlock/livelock witness).",
@@ -55,12 +57,15 @@ ASSUMPTIONS = [
     "peer and server share one virtual loop; a fault is injected only after everything sent so far was processed",
     "the recording proxy sits at the outermost HTTPMessageDelegate (inside the gzip wrapper when decompress_request is on)",
     "quiescence = peer gone, close_all_connections() awaited, two settle() rounds",
+    "a delegate whose finish() raises has been told that the message finished; a further on_connection_close is 'both'",
 ]
 REQUIRED_COUNTERS = ["oracle_evals", "started_requests", "terminal_close", "terminal_finish", "shutdown_completed",
                      "body_prefix_evals", "refused_after_headers_received"]
 SHARD_TIMEOUT = {"quick": 240, "thorough": 3000}
 
-HANDLERS = ["raw_sync", "raw_async", "app_sync", "app_async", "app_stream", "raw_early", "raw_early_async"]
+HANDLERS = ["raw_sync", "raw_async", "app_sync", "app_async", "app_stream", "raw_early", "raw_early_async",
+            "raw_finish_raises"]
+ROTATING = HANDLERS[:7]     # quick tier: these rotate with the offset; "raw_finish_raises" is added where a finish() can happen
 REQ_FAULTS = ["close", "reset", "half", "shutdown"]
 BIG = b"x" * 1500000      # larger than the AF_UNIX socket buffer: stays in the write buffer while the peer does not read
 RESP_POINTS = ["before_handler", "handler_awaits", "after_flush", "finish_undrained", "between_pipelined"]
@@ -212,6 +217,28 @@ def refused_bases(tier):
     B.append(("refused:gzip-bad-magic-chunked", [_req(b"POST", b"/", [H, (b"Content-Encoding", b"gzip"), TE],
                                                       _chunked([badmagic[:9], badmagic[9:]]), gzbody)],
               dict(R, decompress_request=True, chunk_size=8)))
+    # -- gzip request bodies that are correctly FRAMED (Content-Length / chunks add up) but whose gzip stream stops
+    #    early: the error is only seen when the message ends, i.e. inside the decoding wrapper's finish() - the one
+    #    refusal that is raised from a finish() call instead of from the body reader.  Cuts: inside the 8-byte
+    #    trailer (all output delivered), inside the deflate data, and where the decompressor still holds output.
+    CE = (b"Content-Encoding", b"gzip")
+
+    def cl(b):
+        return (b"Content-Length", str(len(b)).encode())
+    B.append(("refused:gzip-truncated-no-trailer", [_req(b"POST", b"/", [H, CE, cl(g[:-8])], g[:-8], gzbody)],
+              dict(R, decompress_request=True)))
+    B.append(("refused:gzip-truncated-last-byte-chunked", [_req(b"POST", b"/", [H, CE, TE], _chunked([g[:13], g[13:-1]]), gzbody)],
+              dict(R, decompress_request=True, chunk_size=8)))
+    half = g[:10 + (len(g) - 18) // 2]
+    B.append(("refused:gzip-truncated-mid-deflate-then-get", [_req(b"PUT", b"/1", [H, CE, cl(half)], half, gzbody),
+                                                             _req(b"GET", b"/2", [H])],
+              dict(R, decompress_request=True, chunk_size=4)))
+    z3k = b"\0" * 3000
+    held = _gz(z3k)[:-9]
+    B.append(("refused:gzip-truncated-output-held", [_req(b"POST", b"/", [H, CE, cl(held)], held, z3k)],
+              dict(R, decompress_request=True, chunk_size=64)))
+    B.append(("refused:gzip-header-only", [_req(b"POST", b"/", [H, CE, cl(g[:10])], g[:10], gzbody)],
+              dict(R, decompress_request=True)))
     return B
 
 
@@ -243,9 +270,15 @@ class Gate:
         self.handler_events = []
 
 
+class FinishFailure(Exception):
+    """Raised by the 'raw_finish_raises' delegate from its finish(): the delegate HAS been told that the message
+    finished (that the notification failed inside the application does not make it a close)."""
+
+
 class RawDelegate(httputil.HTTPServerConnectionDelegate):
-    def __init__(self, gate, asynchronous, mode, slow=False, early=False):
+    def __init__(self, gate, asynchronous, mode, slow=False, early=False, raises=None):
         self.gate, self.asynchronous, self.mode, self.slow, self.early = gate, asynchronous, mode, slow, early
+        self.raises = raises      # None | "first" (finish() fails before it did anything) | "last" (after it responded)
 
     def start_request(self, server_conn, request_conn):
         return RawMsg(self, request_conn)
@@ -291,10 +324,14 @@ class RawMsg(httputil.HTTPMessageDelegate):
     def finish(self):
         if getattr(self, "responded", False):
             return
+        if self.o.raises == "first":
+            raise FinishFailure("delegate fails in finish() before responding")
         if self.o.asynchronous or self.o.mode not in ("plain", "big"):
             asyncio.ensure_future(self._respond())
         else:
             self._write_all()
+        if self.o.raises:
+            raise FinishFailure("delegate fails in finish() after responding / scheduling its response")
 
     def _write_all(self):
         body = BIG if self.o.mode == "big" else b"ok"
@@ -395,7 +432,9 @@ def make_app(kind, gate, mode, slow=False):
     return web.Application([(r"/.*", H)])
 
 
-def make_target(kind, gate, mode, slow=False):
+def make_target(kind, gate, mode, slow=False, variant=0):
+    if kind == "raw_finish_raises":
+        return RawDelegate(gate, False, mode, raises=("first", "last")[variant % 2])
     if kind == "raw_sync":
         return RawDelegate(gate, False, mode)
     if kind == "raw_async":
@@ -463,6 +502,8 @@ def _gen_cases_one(spec):
     tier = spec["tier"]
     B = bases(tier)
     rng = core.rng_for(spec["seed"], PROP, f'{spec["kind"]}{spec.get("base", spec.get("part"))}')
+    if spec["kind"] in ("offsets", "timeouts"):
+        first_complete = len(B[spec["base"]][1][0][0]) + len(B[spec["base"]][1][0][1])     # end of the first request
     if spec["kind"] == "offsets":
         base = B[spec["base"]]
         data = stream_of(base)
@@ -473,10 +514,15 @@ def _gen_cases_one(spec):
         offsets = [k for k in offsets if k >= _first_offset(base, tier)]
         for k in offsets:
             for fi, fault in enumerate(REQ_FAULTS):
-                hs = HANDLERS if (tier == "thorough" and len(data) <= 2000) else [HANDLERS[(k + fi + spec["seed"]) % len(HANDLERS)]]
+                every = tier == "thorough" and len(data) <= 2000
+                hs = HANDLERS if every else [ROTATING[(k + fi + spec["seed"]) % len(ROTATING)]]
                 for h in hs:
                     yield {"base": spec["base"], "name": base[0], "offset": k, "fault": fault, "handler": h, "phase": "request",
                            "cuts": rng.choice(["whole", "whole", "random", "pairs"]) if k <= 400 else "whole"}
+                if not every and k >= first_complete:
+                    # at least one request is complete here, i.e. a finish() is due: the delegate whose finish() raises
+                    yield {"base": spec["base"], "name": base[0], "offset": k, "fault": fault, "handler": "raw_finish_raises",
+                           "phase": "request", "cuts": "whole"}
     elif spec["kind"] == "timeouts":
         base = B[spec["base"]]
         data = stream_of(base)
@@ -485,7 +531,10 @@ def _gen_cases_one(spec):
         else:
             ks = list(range(_first_offset(base, tier), len(data) + 1))
         for k in ks:
-            hs = HANDLERS if tier == "thorough" and len(data) <= 2000 else [HANDLERS[(k + spec["seed"]) % len(HANDLERS)]]
+            every = tier == "thorough" and len(data) <= 2000
+            hs = HANDLERS if every else [ROTATING[(k + spec["seed"]) % len(ROTATING)]]
+            if not every and k >= first_complete:
+                hs = hs + ["raw_finish_raises"]
             for h in hs:
                 yield {"base": spec["base"], "name": base[0], "offset": k, "fault": "timeout", "handler": h, "phase": "request",
                        "cuts": "whole"}
@@ -524,6 +573,14 @@ def directed_cases():
     yield {"base": 2, "name": "post-cl", "offset": 60, "fault": "close", "handler": "app_stream", "phase": "request", "cuts": "whole"}
     yield {"base": 8, "name": "pipelined-get-post", "offset": 76, "fault": "half", "handler": "raw_async", "phase": "request", "cuts": "whole"}
     yield {"base": 0, "name": "get", "offset": None, "fault": "shutdown", "handler": "app_async", "phase": "resp:handler_awaits", "cuts": "whole", "wplan": "none"}
+    # the end-of-message notification itself fails: the gzip wrapper's finish() on a correctly framed, truncated gzip
+    # body (base addressed in the quick tier's list), and an application delegate raising from finish()
+    names = [b[0] for b in bases("quick")]
+    for n in ("refused:gzip-truncated-no-trailer", "refused:gzip-truncated-output-held"):
+        yield {"base": names.index(n), "name": n, "offset": 10 ** 6, "fault": "half", "handler": "raw_sync", "phase": "request",
+               "cuts": "whole", "tier": "quick"}
+    yield {"base": 2, "name": "post-cl", "offset": 10 ** 6, "fault": "half", "handler": "raw_finish_raises", "phase": "request", "cuts": "whole"}
+    yield {"base": 8, "name": "pipelined-get-post", "offset": 10 ** 6 + 1, "fault": "close", "handler": "raw_finish_raises", "phase": "request", "cuts": "whole"}
 
 
 # ---------------------------------------------------------------------------
@@ -582,7 +639,11 @@ def execute(case, tier):
         if case["fault"] == "timeout":
             kw["body_timeout"] = 1.0
             kw["idle_connection_timeout"] = 1.0
-        target = make_target(case["handler"], gate, mode, case.get("slow", False))
+        # which way the failing delegate fails; NOT (offset + fault) % len(HANDLERS), which selects the handler itself
+        fi = REQ_FAULTS.index(case["fault"]) if case["fault"] in REQ_FAULTS else 1
+        variant = ((case["offset"] + fi) // len(HANDLERS) + case["offset"]) if case["offset"] is not None \
+            else fi + RESP_POINTS.index(point) + case["base"]
+        target = make_target(case["handler"], gate, mode, case.get("slow", False), variant)
         rig = wire.ServerRig(target, read_plan=plan(), write_plan=wplan, **kw)
         peer = rig.connect()
         obs["log"] = rig.log
